@@ -1336,9 +1336,9 @@ class Simplifier:
         if not _is_constant(other):
             return expression
 
-        # Find the first constant arg
+        # Find the first constant arg (a NULL literal is skipped by COALESCE itself)
         for arg_index, arg in enumerate(coalesce.expressions):
-            if _is_constant(arg):
+            if _is_constant(arg) and not isinstance(arg, exp.Null):
                 break
         else:
             return expression
@@ -1359,7 +1359,9 @@ class Simplifier:
                 ),
                 exp.and_(
                     this.is_(exp.null()),
-                    type(expression)(this=arg.copy(), expression=other.copy()),
+                    type(expression)(this=arg.copy(), expression=other.copy())
+                    if coalesce is expression.left
+                    else type(expression)(this=other.copy(), expression=arg.copy()),
                     copy=False,
                 ),
                 copy=False,
